@@ -117,7 +117,7 @@ struct Gen {
 					break;
 				}
 				case S_CALL: {
-					s.nargs = rng.range(1, std::min(3, v.D));
+					s.nargs = rng.range(1, std::min(4, v.D));
 					for(int k = 0; k < s.nargs; ++k) {
 						s.ak[k] = rng.below(3);
 						if(s.ak[k] == 0) s.aa[k] = rng.below(v.n[k]);
@@ -289,7 +289,7 @@ struct Gen {
 				o.a    = alive_slot(D);
 				o.file = rng.below(NFILE);
 				o.arch = rng.below(3);
-				o.var  = rng.below(3);  // 0 array, 1 view, 2 array re-indexed to base 1
+				o.var  = rng.below(4);  // 0 array, 1 view, 2 array re-indexed to base 1, 3 read-only view
 				break;
 			}
 			case 13: {  // MPI
@@ -345,6 +345,7 @@ struct Gen {
 				o.db = any_alive_dim();
 				if(o.db < 0) continue;
 				o.b = alive_slot(o.db);
+				if((o.kind == O_ASSIGN_VIEW || o.kind == O_ASSIGN_ITER || o.kind == O_ASSIGN_RANGE || o.kind == O_FROM) && rng.chance(1, 6)) { o.db = D; o.b = o.a; }  // a view of the target itself
 				MView v;
 				bool  found = false;
 				if(o.kind != O_CTOR_VIEW && o.kind != O_CTOR_RANGE && o.kind != O_DECAY && rng.chance(1, 2) && M.at(D, o.a).count() > 0) {
@@ -501,7 +502,7 @@ struct Gen {
 				break;
 			}
 			case O_SAVE: {
-				if(o.var == 1) {
+				if(o.var == 1 || o.var == 3) {
 					MView v;
 					if(!find_view(D, o.a, -1, nullptr, false, o.ca, v) || v.count() == 0) continue;
 				}
